@@ -157,7 +157,7 @@ TABLE['C05'] = dict(
     ])
 
 TABLE['C06'] = dict(
-    imports=[A + 'TwoLocusInit', A + 'Assembly', A + 'BridgeTwoLocus', A + 'Marginal', A + 'RewardsThm', A + 'EndToEnd2'],
+    imports=[A + 'TwoLocusInit', A + 'Assembly', A + 'BridgeTwoLocus', A + 'Marginal', A + 'RewardsThm', A + 'EndToEnd2', A + 'MarginalsThm'],
     summary='Proved: the two-locus chain is the lumping of the ARG particle system; each locus is a strong lumping onto the '
             'single-locus chain for EVERY recombination rate, hence equal marginal moments/cdf of every order; at r = 0 from a '
             'fully linked start the loci coincide on every reachable state, so cross moments equal second moments; locus '
@@ -178,6 +178,9 @@ TABLE['C06'] = dict(
         ('combined_tbl_locus', 'PG.combined_tbl_locus', 'CombinedReward([TBL, Locus l]) is the per-locus branch count'),
         ('combined_height_locus', "PG.combined_height_locus'", 'CombinedReward([TreeHeight, Locus l]) is the per-locus indicator'),
         ('end_to_end_two_locus', 'PG.EndToEnd.two_locus_moment_call_eq_labelled', 'CAPSTONE (two loci): what moment(...) returns on the two-locus graph equals the labelled ARG combination'),
+        ('marg_locus_diag_defect', 'PG.Marginals.Examples.locusDiagJointVar_violates', 'kernel-checked: returning the joint variance on the diagonal of loci.cov is wrong (8 instead of 4) and breaks the sum'),
+        ('marg_locus_corr_r0_defect', 'PG.Marginals.Examples.locusCorrOneAtR0_violates', 'kernel-checked: corr = 1 at r = 0 is wrong for unlinked starts (cov 0)'),
+        ('marg_code_loci', 'PG.Marginals.code2_loci_tbl_marginals', 'two-locus code functional: locus marginals of the total branch length decompose the total'),
     ])
 
 TABLE['C07'] = dict(
@@ -305,7 +308,7 @@ TABLE['C11'] = dict(
     ])
 
 TABLE['C12'] = dict(
-    imports=[A + 'Corollaries', A + 'DemePerm', A + 'Conservation', A + 'RewardsThm', A + 'SampleConsistency', A + 'Marginal', A + 'MomentsThm'],
+    imports=[A + 'Corollaries', A + 'DemePerm', A + 'Conservation', A + 'RewardsThm', A + 'SampleConsistency', A + 'Marginal', A + 'MomentsThm', A + 'MarginalsThm'],
     summary='Proved: deme rewards sum to one and product rewards decompose, per-locus branch rewards sum to the total, first moments are '
             'linear (means decompose), covariance is symmetric; a set of states that is never entered contributes nothing '
             '(accumVal_congr_closed). Partial: positive semi-definiteness needs the probabilistic representation PT1.',
@@ -323,6 +326,18 @@ TABLE['C12'] = dict(
         ('mean_linear', 'PG.accumVal_one_linear', 'means are linear in the reward'),
         ('cross_moment_symmetric', 'PG.accumulate_swap', 'covariance entries are symmetric'),
         ('unreachable_states_irrelevant', 'PG.Marginal.accumVal_congr_closed', 'rewards may be changed outside a closed class carrying the initial mass'),
+        ('marg_getcov_symm', 'PG.Marginals.getCov_symm', 'ASSEMBLY LAYER (MarginalDeme/LocusDistributions): get_cov(a, b) = get_cov(b, a), exceptions included'),
+        ('marg_cov_diag', 'PG.Marginals.cov_diag_eq_margVar', 'the diagonal of cov is the variance of the sub-distribution of that part'),
+        ('marg_cov_matrix_symm', 'PG.Marginals.cov_matrix_symm', 'the matrix [[get_cov(p1, p2) for p1] for p2] is symmetric (the transpose layout is harmless)'),
+        ('marg_cov_sum', 'PG.Marginals.cov_sum_eq_var', 'the entries of cov sum to the variance of the total whenever the part rewards sum to the total reward (slot-additive raw functional)'),
+        ('marg_mean_sum', 'PG.Marginals.mean_sum_eq_mean', 'part means sum to the mean'),
+        ('marg_partition_demes', 'PG.Marginals.isPartition_demes', 'deme rewards partition any base reward on states with at least one lineage'),
+        ('marg_partition_loci', 'PG.Marginals.isPartition_loci_tbl', 'locus rewards partition the total branch length'),
+        ('marg_corr', 'PG.Marginals.corr_is_normalised_cov', 'corr * (sd_a sd_b) = cov and corr^2 var_a var_b = cov^2 (exact square roots)'),
+        ('marg_corr_diag', 'PG.Marginals.corr_diag_one', 'corr[a][a] = 1 when the variance is non-zero'),
+        ('marg_empty_part', 'PG.Marginals.empty_part_zero', 'a part whose reward the functional kills has mean, variance and covariances 0'),
+        ('marg_code_demes', 'PG.Marginals.code_deme_marginals', 'all of the above for the code model functional codeRaw (slot additivity from accumVal_slot_linear)'),
+        ('marg_no_permute_defect', 'PG.Marginals.Examples.demeCovNoPermute_violates_getCov_symm', 'kernel-checked: permute=False in get_cov with a symmetrised .cov leaves get_cov / corr asymmetric'),
     ])
 
 TABLE['C13'] = dict(
